@@ -133,6 +133,23 @@ func EmptyMap(init uint64) *Prog {
 	return p
 }
 
+// SineDeltas: a set_if_not_exists store whose operations are no-ops after the first block (the key exists) and a
+// delete_prefix that matches nothing, read in deltas mode by the output map: blocks whose log is not empty but yields
+// no delta.
+func SineDeltas(init uint64) *Prog {
+	return mk(fmt.Sprintf("sinedeltas-%d", init), map[string]*Body{
+		"s": {Ops: []OpT{
+			{T: "w", Key: Lit("first"), Val: Num(), Ord: 0},
+			{If: Every(3, 0), T: "w", Key: Cat(Lit("t"), Div(3)), Val: ID(), Ord: 1},
+			{If: Every(4, 1), T: "d", Key: Lit("zz"), Ord: 2},
+		}},
+		"m": {Emit: Cat(Num(), Lit(" d="), Deltas("s"))},
+	}, "m",
+		modgen.Store("s", init, pSine, "string", modgen.Src()),
+		modgen.Map("m", init, modgen.Src(), modgen.StoreIn("s", true)),
+	)
+}
+
 // Index2: two block-index modules computed by the same segment job, sharing the key name "k" on different blocks
 // (idxa: even blocks; idxb: blocks = 1 mod 3), and modules filtered on that key through each of them.
 func Index2() *Prog {
